@@ -53,7 +53,7 @@ SKY_CLASSES = ['CircleSkyRegion', 'EllipseSkyRegion', 'RectangleSkyRegion', 'Pol
 
 OPS = ['contains', 'contains', 'in', 'to_mask', 'to_mask', 'area', 'bounding_box', 'to_sky', 'to_pixel', 'rotate', 'copy', 'combine', 'as_artist',
        'serialize', 'serialize', 'serialize', 'write', 'parse', 'parse', 'read', 'regions-list', 'mask-apply', 'pixcoord', 'bbox-ops', 'sky-contains', 'eq',
-       'repr']
+       'repr', 'meta-arg']
 
 
 def make_pool_spec(rng):
@@ -117,6 +117,10 @@ class Pool:
                 self.notes['sky-centre-in-cartesian-representation'] += 1
             except Exception:
                 pass
+        # metadata objects the caller holds and hands to constructors / copy(): flags as Python ints, a list-valued entry
+        import regions as _rg
+        self.metas = [_rg.RegionMeta({'include': 1, 'label': 'kept by the caller', 'tag': ['a', 'b']}), _rg.RegionMeta({'include': 0, 'select': 1}),
+                      _rg.RegionVisual({'color': 'red', 'linewidth': 2, 'dashes': [4, 2]})]
         nrng = np.random.default_rng(spec['imseed'])
         cr = self.wcs.wcs.crpix
         # (the integer image is as large as the float one: masks of integer type - annuli, compounds - lie fully inside it)
@@ -159,6 +163,8 @@ class Pool:
             d[f'sky[{i}]'] = r
         for i, a in enumerate(self.images):
             d[f'image[{i}]'] = a
+        for i, m in enumerate(self.metas):
+            d[f'meta-object[{i}]'] = m
         for i, c in enumerate(self.coords):
             d[f'coord[{i}]'] = c
         for i, c in enumerate(self.skycoords):
@@ -390,7 +396,28 @@ def do_op(pool, op):
             except (ValueError, AttributeError, NotImplementedError) as e:
                 return name, e
         if name == 'eq':
-            return name, (pix == pool.pix[op['j'] % len(pool.pix)], sky == sky.copy())
+            # also against twins that differ only in whether an include entry is present at all
+            tw = pix.copy()
+            if 'include' in tw.meta:
+                del tw.meta['include']
+            else:
+                tw.meta['include'] = True
+            ts = sky.copy(meta=pool.metas[op['k'] % 2])
+            return name, (pix == pool.pix[op['j'] % len(pool.pix)], sky == sky.copy(), pix == tw, tw == pix, pix != tw, sky == ts, ts != sky)
+        if name == 'meta-arg':
+            # constructors / copy() given the caller's own metadata objects; the regions are then used
+            import regions as _rg
+            m, v = pool.metas[op['k'] % 2], pool.metas[2]
+            made = [pix.copy(meta=m, visual=v), sky.copy(meta=m), type(pix)(**{p: getattr(pix, p) for p in pix._params}, meta=m, visual=v)]
+            if isinstance(pix, _rg.PixelRegion) and type(pix).__name__ != 'CompoundPixelRegion':
+                made.append(_rg.CompoundPixelRegion(pix, pool.pix[op['j'] % len(pool.pix)], prng.choice([S._OPS['and'], S._OPS['or']]), meta=m, visual=v))
+            out = []
+            for r in made:
+                try:
+                    out.append((r.contains(pool.coords[0]) if isinstance(r, _rg.PixelRegion) else None, r.bounding_box if isinstance(r, _rg.PixelRegion) else None))
+                except Exception as e:
+                    out.append(type(e).__name__)
+            return name, (made, out)
         if name == 'repr':
             return name, (repr(pix), str(sky))
         if name in ('serialize', 'write', 'parse', 'read'):
